@@ -27,7 +27,7 @@ CLAIMED = {
          "scope as in the statement (bound slots bound once and not used free; e-graphs with a redundant slot are skipped and counted); additionally the right side introduces no free slot that the left side lacks (such a slot is quantified independently of slots hidden in variable bindings); sampling"),
  "C05": ("rw", "7 C05", "seeded sess histories, then patterns abstracted from the history's terms (repeated variables, binders, two slots identified non-injectively, e-node patterns whose children share slots) and multi-patterns with shuffled equations; every returned substitution is validated by bottom-up lookup (plus eq per equation for multi-patterns); fingerprint unchanged by matching; part C05R: the same validation for the left patterns of the LA rule pool after every iteration of the rewriting workload",
          "multi-patterns are built through the crate's MultiPattern::parse (its fields are private); sampling"),
- "C06": ("sess", "7 C06", "seeded long histories over LS and rewriting runs over LA (part C06R) (cyclic classes, redundant slots, symmetric classes), three strictly monotone cost functions; every live class with a finite term is extracted under the identity, a renamed and an own-slot-permuting invocation; membership by lookup_rec_expr + eq, cost recomputed on the term, minimality against value iteration M_cost, free slots of the result",
+ "C06": ("sess", "7 C06", "seeded long histories over LS and rewriting runs over LA (part C06R) (cyclic classes, redundant slots, symmetric classes), three strictly monotone cost functions; every live class with a finite term is extracted under the identity, a renamed and an own-slot-permuting invocation and one whose argument is spelled like a bound slot shown by an earlier result of the same extractor; membership by lookup_rec_expr + eq, cost recomputed on the term, minimality against value iteration M_cost, free slots of the result",
          "M_cost value iteration over enodes(); classes without a finite term are out of scope; sampling"),
  "C07": ("expl", "7 C07", "explanations build: seeded histories with add_syn_expr / union_justified, (part C07R) single rule applications on planted instances, and (part C07S) saturation runs over LA (apply_rewrites / Runner::run with the C03 rule pool, conditional rules, rules that move terms under binders) after which inserted terms are explained against the smallest term of their class and against each other; for sampled equal pairs under all relative renamings, and for congruent query terms that were never inserted, explain_equivalence must return and the proof DAG is re-checked node by node on terms by the independent checker M_proof; explicit leaves must be instances of an asserted equation or of the applied rule, with their justification; the conclusion must be the queried pair",
          "M_proof reads proofs only through ProvenEqRaw::proof/equ and get_syn_expr; C07S runs without the b[x := t] rule and without the modify hook; sampling"),
